@@ -438,3 +438,133 @@ func emitH3(o h3obs) string {
 	return fmt.Sprintf("H3Case (mkCfg3 %s %s) %s %s %s %s %s", hk.CoqBool(o.Spec.Reuse), hk.CoqBool(o.Spec.Upload), hk.CoqBool(realTimer(o.Kind)),
 		coqLabels(o.Pre), coqLabels(o.RacyLab), coqLabels(inj), ob)
 }
+
+// ---------- bystanders ----------
+
+func recordQueue(r *hk.Run, o queueObs) {
+	where := "queue:" + o.Spec.Name + ":" + o.Spec.Kind
+	fail := func(sig, what string) { r.Fail(hk.Failure{Sig: sig + ":" + where, What: what, Input: o}) }
+	if o.Harness != "" {
+		fail("harness", "the scripted scenario could not be played: "+o.Harness)
+	} else {
+		want := map[string]string{"cancel": "cause:canceled", "deadline": "cause:deadline"}[o.Spec.Kind]
+		cancelled := map[int]bool{}
+		for _, i := range o.Spec.Cancel {
+			cancelled[i] = true
+			if o.Results[i] != want {
+				fail("wrong-error", fmt.Sprintf("waiter %d, whose context ended while it was queued, ended as %q", i, o.Results[i]))
+			}
+		}
+		if len(o.Stranded) > 0 {
+			fail("stranded", fmt.Sprintf("live waiters %v were not served although the only connection had become idle (a waiter whose context ended sat in front of them)", o.Stranded))
+		}
+		// first come first served among the live ones
+		var live []int
+		for i := 0; i < o.Spec.Waiters; i++ {
+			late := false
+			for _, l := range o.Spec.Late {
+				late = late || l == i
+			}
+			if !cancelled[i] && !late {
+				live = append(live, i)
+			}
+		}
+		for _, l := range o.Spec.Late {
+			live = append(live, l)
+		}
+		if len(o.Stranded) == 0 && fmt.Sprint(live) != fmt.Sprint(o.Served) {
+			fail("order", fmt.Sprintf("live waiters were served in the order %v, queued in the order %v", o.Served, live))
+		}
+		for _, i := range o.Served {
+			if o.Results[i] != "nil" {
+				fail("bystander-failed", fmt.Sprintf("waiter %d was served but ended as %q", i, o.Results[i]))
+			}
+		}
+		if len(o.Leaked) > 0 {
+			fail("leak", "library goroutines alive afterwards: "+strings.Join(o.Leaked, " | "))
+		}
+		if !o.FollowOK {
+			fail("follow-up", "a follow-up request on the same client failed: "+o.FollowEr)
+		}
+	}
+	r.Count("queue:" + o.Spec.Kind)
+	coq := ""
+	if o.Harness == "" {
+		served := make([]string, len(o.Served))
+		for i, v := range o.Served {
+			served[i] = hk.CoqNat(v)
+		}
+		coq = fmt.Sprintf("QueueCase %s %s %s", coqLabels(o.Events), hk.CoqList(served), hk.CoqNat(o.Idle))
+	}
+	r.Add(hk.Case{Coq: coq, Desc: map[string]interface{}{"kind": "queue", "obs": o}}, "queue|"+o.Spec.Name+"|"+o.Spec.Kind, len(o.Spec.Cancel) > 0)
+}
+
+func recordWindow(r *hk.Run, o windowObs) {
+	where := "window:" + o.Spec.Name + ":" + o.Spec.Kind
+	fail := func(sig, what string) { r.Fail(hk.Failure{Sig: sig + ":" + where, What: what, Input: o}) }
+	if o.Harness != "" {
+		fail("harness", "the scripted scenario could not be played: "+o.Harness)
+	} else {
+		want := map[string]string{"cancel": "cause:canceled", "deadline": "cause:deadline"}[o.Spec.Kind]
+		for i, res := range o.Results {
+			if res != want {
+				fail("wrong-error", fmt.Sprintf("cancelled download %d: the pending body read ended as %q", i, res))
+			}
+		}
+		for i, c := range o.Rst {
+			if c != 8 {
+				fail("no-rst", fmt.Sprintf("cancelled download %d: no RST_STREAM(CANCEL) (code %d)", i, c))
+			}
+		}
+		if o.ConnGone {
+			fail("conn-closed", "the shared connection was closed")
+		}
+		if o.PeerStuck || !o.FollowOK {
+			total := 0
+			for _, n := range o.StrayPut {
+				total += n
+			}
+			fail("window-lost", fmt.Sprintf("after the cancelled downloads (%d bytes of DATA arrived for streams already reset, %d bytes of connection credit handed back, window %d) a download of %d bytes on the same connection did not complete: %s",
+				total, o.Credited, o.Window, o.Spec.Follow, o.FollowEr))
+		}
+		if len(o.Leaked) > 0 {
+			fail("leak", "library goroutines alive afterwards: "+strings.Join(o.Leaked, " | "))
+		}
+	}
+	r.Count("window:" + o.Spec.Kind)
+	coq := ""
+	if o.Harness == "" && !o.PeerStuck {
+		var fr []string
+		for _, n := range o.StrayPut {
+			fr = append(fr, hk.CoqZ(int64(n)))
+		}
+		coq = fmt.Sprintf("WindowCase %s %s %s", hk.CoqZ(o.Window), hk.CoqList(fr), hk.CoqZ(o.Credited))
+	}
+	r.Add(hk.Case{Coq: coq, Desc: map[string]interface{}{"kind": "window", "obs": o}}, "window|"+o.Spec.Name, len(o.StrayPut) > 0)
+}
+
+func recordShare(r *hk.Run, o shareObs) {
+	where := "share:" + o.Spec.Name
+	fail := func(sig, what string) { r.Fail(hk.Failure{Sig: sig + ":" + where, What: what, Input: o}) }
+	if o.Harness != "" {
+		fail("harness", "the scripted scenario could not be played: "+o.Harness)
+	} else {
+		want := map[string]string{"cancel": "cause:canceled", "deadline": "cause:deadline", "deadline-timer": "cause:deadline"}[o.Spec.Kind]
+		if o.A != want {
+			fail("wrong-error", "the request whose context ended during the dial ended as "+o.A+" "+o.AErr)
+		}
+		if o.B != "nil" {
+			fail("bystander-failed", fmt.Sprintf("a second request that had joined the pending dial, with a context of its own that was alive, ended as %s: %s", o.B, o.BErr))
+		}
+		if len(o.Leaked) > 0 {
+			fail("leak", "library goroutines alive afterwards: "+strings.Join(o.Leaked, " | "))
+		}
+	}
+	r.Count("share:" + o.Spec.Stack + ":" + o.Spec.Kind)
+	coq := ""
+	if o.Harness == "" && o.Joined {
+		c := map[string]string{"cancel": "CCanceled", "deadline": "CDeadline", "deadline-timer": "CDeadline"}[o.Spec.Kind]
+		coq = fmt.Sprintf("ShareCase %s %s", c, hk.CoqBool(o.B == "nil"))
+	}
+	r.Add(hk.Case{Coq: coq, Desc: map[string]interface{}{"kind": "share", "obs": o}}, "share|"+o.Spec.Name, true)
+}
